@@ -15,7 +15,10 @@ RULE = (
     "tuples = ordered prefixes of random permutations, optional idle qubits). Oracle: numpy "
     "tensordot embedding of each gate's own matrix, multiplied in program order. Non-trivial: "
     ">=2 ops and (a multi-qubit op on a non-ascending or non-adjacent tuple, or an idle "
-    "qubit, or a native/non-native boundary). Distinct = distinct canonical spec JSON."
+    "qubit, or a native/non-native boundary). Distinct = distinct canonical spec JSON. Further sub-checks: circuits whose "
+    "gate parameters are partly free symbols (symbolic_unitary), phase-only operations inside circuits given to the bundled "
+    "simulator, registers of 9-11 qubits with index tuples spanning the register (wide_apply, state-vector reference), "
+    "sessions of related circuits in one process."
 )
 ASSUMPTIONS = [
     "gate parameters are Python floats (numpy scalars are outside the property's domain)",
